@@ -14,6 +14,9 @@ LINKS = ("LinkAccessor", "AttrProxyAccessor", "PhysicalLinkEndsAccessor", "Typec
 STRINGS = ["x", "", "a b", "<&>\"'", "é ü", "tab\there", "line\nbreak", "\U0001F600", "]]>", "&amp;", " lead", "trail "]
 
 
+SAME_RESOURCE_MOVES = False  # set by checks whose domain excludes moves between resources
+
+
 class Relation(t.NamedTuple):
     owner: t.Any
     attr: str
@@ -225,6 +228,10 @@ def gen_step(model, rels: list[Relation], rng: random.Random, weights: dict[str,
                     e = e.getparent()
                 if id(src._element) in anc:
                     continue
+                if SAME_RESOURCE_MOVES:
+                    ff = model._loader.find_fragment
+                    if ff(src._element).parts[0] != ff(rel.owner._element).parts[0]:
+                        continue  # library resources are not written by save(): such a move cannot persist
                 x = src
             else:
                 cands = candidates_for(model, rel, rng)
